@@ -42,7 +42,10 @@ _constructor.__name__ = "constructor_block"
 
 def build(tier, seed):
     set_tier(tier)
-    tasks = [Task(f"{PROP}.S.filter_public", PROP, "FortranCodeUnit.correlate", lambda: __import__("contracts.useassoc", fromlist=["x"]).filter_public_obligation(PROP, lambda: __import__("bounded.c06", fromlist=["x"]).search())),
+    tasks = [standin_task(PROP, "parser.spelling_equivalence", lambda: __import__("bounded.c01", fromlist=["x"]).search(), "ford.sourceform (real parser)",
+                          "the two spellings of a declaration (attributes on the declaration / attribute statements, typed / implicitly typed common members) give the same entities, "
+                          "accessibility included", "model programs of C01", 1),
+             Task(f"{PROP}.S.filter_public", PROP, "FortranCodeUnit.correlate", lambda: __import__("contracts.useassoc", fromlist=["x"]).filter_public_obligation(PROP, lambda: __import__("bounded.c06", fromlist=["x"]).search())),
              a_task(PROP, access.is_interface_procedure), a_task(PROP, access.permission_getter), a_task(PROP, access.access_tracking),
              a_task(PROP, access.process_attribs_item), a_task(PROP, _constructor),
              Task(f"{PROP}.S.constructors", PROP, "FortranContainer.__init__", lambda: access.constructor_call_sites(PROP) + access.initial_default(PROP)),
